@@ -12,7 +12,7 @@ use std::sync::Arc;
 
 pub const SLOTS: usize = 6;
 pub const SLOT_NAMES: [&str; SLOTS] = ["a", "b", "list[0]", "list[1]", "map[m]", "nested.x"];
-pub const PAYLOADS: [&str; 12] = [
+pub const PAYLOADS: [&str; 13] = [
     "String",
     "Vec<i64>",
     "BTreeMap<String,i64>",
@@ -25,6 +25,7 @@ pub const PAYLOADS: [&str; 12] = [
     "FlowSeq<Vec<i64>>",
     "empty Vec<i64>",
     "FlowMap<BTreeMap<String,i64>>",
+    "empty BTreeMap<String,i64>",
 ];
 pub const OPTS: [&str; 5] = ["default", "compact", "indent=4", "compact+indent=3", "indent=1"];
 fn ser_opts(i: u8) -> crate::common::SerOpts {
@@ -415,6 +416,8 @@ impl Prop for C14 {
             (9, false) => check_rc::<serde_saphyr::FlowSeq<Vec<i64>>>(c, |i| serde_saphyr::FlowSeq(vec![7000 + i as i64, 1]), |i| Some(format!("{}", 7000 + i as i64))),
             (10, false) => check_rc::<Vec<i64>>(c, |_| vec![], |_| None),
             (11, false) => check_rc::<serde_saphyr::FlowMap<BTreeMap<String, i64>>>(c, |i| serde_saphyr::FlowMap([("k".to_string(), 7000 + i as i64)].into_iter().collect()), |i| Some(format!("{}", 7000 + i as i64))),
+            (12, false) => check_rc::<BTreeMap<String, i64>>(c, |_| BTreeMap::new(), |_| None),
+            (12, true) => check_arc::<BTreeMap<String, i64>>(c, |_| BTreeMap::new(), |_| None),
             (8, true) => check_arc::<EV>(c, EV::new, |i| if i % 4 == 3 { None } else { Some(format!("{}", 7000 + i as i64)) }),
             (9, true) => check_arc::<serde_saphyr::FlowSeq<Vec<i64>>>(c, |i| serde_saphyr::FlowSeq(vec![7000 + i as i64, 1]), |i| Some(format!("{}", 7000 + i as i64))),
             (10, true) => check_arc::<Vec<i64>>(c, |_| vec![], |_| None),
